@@ -128,7 +128,8 @@ static int       app_max_tokens = 48;
 static long      app_total_cb; /* callbacks delivered in this case */
 
 /* scripted actions */
-enum { AA_START = 1, AA_CANCEL, AA_SET_SERVERS, AA_SET_SORTLIST, AA_REINIT, AA_READONLY, AA_DUP, AA_JUMP, AA_LOCALADDR, AA_ADVERSARY, AA_SRVMOOD };
+enum { AA_START = 1, AA_CANCEL, AA_SET_SERVERS, AA_SET_SORTLIST, AA_REINIT, AA_READONLY, AA_DUP, AA_JUMP, AA_LOCALADDR, AA_ADVERSARY, AA_SRVMOOD, AA_CKBEHAVE };
+static void ck_set_behaviour(int srv, int b);
 static void (*hl_config_hook)(const int *idx, int n); /* server list (re)installed */
 static void gen_srv_mood_fwd(int srv, int moodidx);
 static void prov_inject(void);
@@ -1076,6 +1077,10 @@ static void app_do_action(app_act_t *a)
     case AA_JUMP:
       sim_now_us += (int64_t)a->arg * 1000;
       sim_note("time_jump");
+      break;
+    case AA_CKBEHAVE:
+      ck_set_behaviour(a->arg / 16, a->arg % 16);
+      sim_note("cookie_behaviour_change");
       break;
     case AA_SRVMOOD:
       gen_srv_mood_fwd(a->arg / 16, a->arg % 16);
